@@ -81,8 +81,11 @@ def concat : List Chunk → Bytes
     non-bytes item is a TypeError.  `none` = an exception. -/
 def join (cs : List Chunk) : Option Bytes := if allBytes cs then some (concat cs) else none
 
+/-- no chunk for an empty byte string, else one -/
+def oneChunk (b : Bytes) : List Chunk := if b.isEmpty then [] else [.bytes b]
+
 /-- `response.body = <bytes>` through ResponseBody.__set__ / prepare_iter: `[]` when empty -/
-def bytesBody (b : Bytes) : Body := ⟨.list, if b.isEmpty then [] else [.bytes b]⟩
+def bytesBody (b : Bytes) : Body := ⟨.list, oneChunk b⟩
 
 /-- what iterating the body delivers at the WSGI boundary:
     (bytes delivered, how it ended) -/
@@ -118,7 +121,7 @@ inductive HVal where
   | pyNone                                      -- the header is present with value None
   | ctype (b : CtBase) (cs : Option Charset)
   | tag (b : Bytes)                             -- '"md5(body)"'
-  | opaque
+  | other
   deriving DecidableEq, Repr
 
 /-- the header dict -/
@@ -158,7 +161,7 @@ inductive Method where
   deriving DecidableEq, Repr
 
 inductive AEnc where
-  | absent | gzip | identity | gzipq0 | other
+  | absent | gzip | identity | gzipq0 | other | idq0     -- other: e.g. `compress`; idq0: `identity;q=0` / `*;q=0`
   deriving DecidableEq, Repr
 
 inductive Cond where
@@ -279,7 +282,7 @@ def finalize (rq : Req) (s : St) : St × Option Exn :=
     else
       match r.hdrs .contentLength with
       | some (.nat _) => ({ s with r := r }, none)      -- user/tool supplied length is kept
-      | some .opaque => ({ s with r := r }, none)
+      | some .other => ({ s with r := r }, none)
       | some (.ctype _ _) => ({ s with r := r }, none)
       | some (.tag _) => ({ s with r := r }, none)
       | _ =>
@@ -331,14 +334,14 @@ def setRedirect (pg : Pages) (code : Nat) (r : Resp) : Out :=
   let r := { r with status := some code }
   match redirKind code with
   | some 0 =>
-    let h := (r.hdrs.set .contentType (.ctype .textHtml (some .utf8))).set .location .opaque
+    let h := (r.hdrs.set .contentType (.ctype .textHtml (some .utf8))).set .location .other
     ({ r with hdrs := h.del .contentLength, body := bytesBody (pg.redir code), tee := false,
               src := .redirPage, gz := false }, none)
   | some 1 =>
     ({ r with hdrs := (r.hdrs.delAll notModifiedKeys).del .contentLength, body := ⟨.list, []⟩,
               tee := false, src := .none, gz := false }, none)
   | some 2 =>
-    ({ r with hdrs := (r.hdrs.set .location .opaque).del .contentLength, body := ⟨.list, []⟩,
+    ({ r with hdrs := (r.hdrs.set .location .other).del .contentLength, body := ⟨.list, []⟩,
               tee := false, src := .none, gz := false }, none)
   | _ => (r, some .exc)
 
@@ -350,7 +353,7 @@ def setResponse (pg : Pages) : Exn → Resp → Out
 /-! ### the before_finalize tools -/
 
 /-- `expires(secs=60, force=True)`: only the Expires header -/
-def expiresStep (r : Resp) : Out := ({ r with hdrs := r.hdrs.set .expires .opaque }, none)
+def expiresStep (r : Resp) : Out := ({ r with hdrs := r.hdrs.set .expires .other }, none)
 
 def flattenChunks : List Chunk → List Chunk
   | [] => []
@@ -360,32 +363,35 @@ def flattenChunks : List Chunk → List Chunk
 /-- `flatten`: the body becomes the flattener generator -/
 def flattenStep (r : Resp) : Out := ({ r with body := ⟨.iter, flattenChunks r.body.chunks⟩ }, none)
 
+/-- `validate_etags(autotags=True)`, first half: provide the entity tag (`none` = collapse raised) -/
+def etagsTag (code : Nat) (r : Resp) : Option Resp :=
+  match r.hdrs .etag with
+  | some _ => some r
+  | none =>
+    if code ≠ 200 then some r else
+    match collapse r with
+    | none => none
+    | some (r', b) => some { r' with hdrs := r'.hdrs.set .etag (.tag b), tee := false }
+
+/-- second half: If-Match / If-None-Match against the tag -/
+def etagsCond (rq : Req) (code : Nat) (r : Resp) : Option Exn :=
+  let tagged := (r.hdrs .etag).isSome
+  if 200 ≤ code ∧ code ≤ 299 then
+    if rq.im = .other ∨ (rq.im = .matching ∧ !tagged) then some (.httpError 412)
+    else if rq.inm = .star ∨ (rq.inm = .matching ∧ tagged) then
+      if rq.safe then some (.redirect 304) else some (.httpError 412)
+    else none
+  else none
+
 /-- `validate_etags(autotags=True)` -/
 def etagsStep (rq : Req) (r : Resp) : Out :=
   if r.etagDone then (r, none) else
   match validStatus r.status with
   | none => (r, some .exc)                       -- ValueError from valid_status
   | some code =>
-    let step : Option Resp :=
-      match r.hdrs .etag with
-      | some _ => some r
-      | none =>
-        if code ≠ 200 then some r else
-        match collapse r with
-        | none => none
-        | some (r', b) => some { r' with hdrs := r'.hdrs.set .etag (.tag b), tee := false }
-    match step with
+    match etagsTag code r with
     | none => (r, some .exc)
-    | some r =>
-      let r := { r with etagDone := true }
-      let tagged := (r.hdrs .etag).isSome
-      if 200 ≤ code ∧ code ≤ 299 then
-        -- If-Match
-        if rq.im = .other ∨ (rq.im = .matching ∧ !tagged) then (r, some (.httpError 412))
-        else if rq.inm = .star ∨ (rq.inm = .matching ∧ tagged) then
-          if rq.safe then (r, some (.redirect 304)) else (r, some (.httpError 412))
-        else (r, none)
-      else (r, none)
+    | some r1 => ({ r1 with etagDone := true }, etagsCond rq code { r1 with etagDone := true })
 
 /-- `compress(body, level)`: lazily wraps the body; a non-bytes item raises after the gzip header
     went out -/
@@ -399,7 +405,7 @@ def ctBase (r : Resp) : Option CtBase :=
 
 /-- `gzip()` with the default mime types -/
 def gzipStep (pg : Pages) (rq : Req) (cached : Bool) (r : Resp) : Out :=
-  let r := { r with hdrs := r.hdrs.set .vary .opaque }
+  let r := { r with hdrs := r.hdrs.set .vary .other }
   if !r.body.truthy then (r, none) else
   if cached then (r, none) else
   match rq.ae with
@@ -408,10 +414,11 @@ def gzipStep (pg : Pages) (rq : Req) (cached : Bool) (r : Resp) : Out :=
   | .gzipq0 => (r, none)
   | .gzip =>
     if ctBase r = some .textHtml ∨ ctBase r = some .textPlain then
-      ({ r with hdrs := (r.hdrs.set .contentEncoding .opaque).del .contentLength,
+      ({ r with hdrs := (r.hdrs.set .contentEncoding .other).del .contentLength,
                 body := ⟨.iter, compressChunks pg r.body.chunks⟩, gz := true }, none)
     else (r, none)
-  | .other => setError pg 406 r          -- set_response() without raising
+  | .other => (r, none)                  -- identity not excluded: body untouched
+  | .idq0 => setError pg 406 r           -- set_response() without raising
 
 /-- `tee_output` -/
 def teeStep (r : Resp) : Out := ({ r with body := ⟨.iter, r.body.chunks⟩, tee := true }, none)
@@ -459,7 +466,7 @@ structure Handler where
   shape : Shape
   st : HStatus := .unset
   ct : CtBase := .textHtml
-  setCL : Bool := false                -- handler sets Content-Length = byte length of its body
+  setCL : Option Nat := none           -- handler sets Content-Length itself
   setStream : Bool := false
 
 structure Tools where
@@ -477,13 +484,13 @@ structure Plan where
 
 /-- `prepare_iter(value)` -/
 def prepareIter : Shape → Body
-  | .bytesV b => ⟨.list, if b.isEmpty then [] else [.bytes b]⟩
+  | .bytesV b => ⟨.list, oneChunk b⟩
   | .strV t => ⟨.list, if t.isEmpty then [] else [.text t]⟩
   | .noneV => ⟨.list, []⟩
   | .listV cs => ⟨.list, cs⟩
   | .genV cs => ⟨.iter, cs⟩
-  | .fileV b => ⟨.iter, if b.isEmpty then [] else [.bytes b]⟩
-  | .staticV b => ⟨.iter, if b.isEmpty then [] else [.bytes b]⟩
+  | .fileV b => ⟨.iter, oneChunk b⟩
+  | .staticV b => ⟨.iter, oneChunk b⟩
 
 /-- ResponseBody.__set__: a `str`, or a `list` containing a `str`, is a ValueError -/
 def setterRejects (b : Body) : Bool :=
@@ -500,14 +507,12 @@ def encodeText (cs : Charset) (t : List Char) : Bytes :=
   | .utf8 => (String.ofList t).toUTF8.toList
   | _ => t.map (fun c => UInt8.ofNat c.toNat)
 
-/-- `encode_string`: `inl rest` = failed (for a one-shot iterator `rest` is what is left of it),
-    `inr body` = the encoded list.  `none` = the producer raised. -/
-def encodeString (cs : Charset) : List Chunk → List Chunk → Option (Sum (List Chunk) (List Chunk))
-  | [], acc => some (.inr acc.reverse)
-  | .text t :: rest, acc =>
-    if encodable cs t then encodeString cs rest (.bytes (encodeText cs t) :: acc) else some (.inl rest)
-  | .raise :: _, _ => none
-  | c :: rest, acc => encodeString cs rest (c :: acc)
+/-- `encode_string` on the materialised body: `none` = this charset cannot encode it -/
+def encodeString (cs : Charset) : List Chunk → Option (List Chunk)
+  | [] => some []
+  | .text t :: rest =>
+    if encodable cs t then (encodeString cs rest).map (Chunk.bytes (encodeText cs t) :: ·) else none
+  | c :: rest => (encodeString cs rest).map (c :: ·)
 
 /-- `encode_stream`: lazy; an unencodable chunk raises when reached -/
 def encodeStream (cs : Charset) : List Chunk → List Chunk
@@ -515,14 +520,14 @@ def encodeStream (cs : Charset) : List Chunk → List Chunk
   | .text t :: rest => if encodable cs t then .bytes (encodeText cs t) :: encodeStream cs rest else [.raise]
   | c :: rest => c :: encodeStream cs rest
 
-/-- the loop of `find_acceptable_charset` over the charsets it tries (non-streaming) -/
-def tryCharsets : List Charset → Body → Option (Option (Charset × List Chunk))
-  | [], _ => some none
-  | cs :: more, b =>
-    match encodeString cs b.chunks [] with
-    | none => none
-    | some (.inr enc) => some (some (cs, enc))
-    | some (.inl rest) => tryCharsets more (if b.kind == .iter then { b with chunks := rest } else b)
+/-- the loop of `find_acceptable_charset` over the charsets it tries (non-streaming); every
+    attempt sees the whole body (`self.body = list(self.body)` before the first one) -/
+def tryCharsets : List Charset → List Chunk → Option (Charset × List Chunk)
+  | [], _ => none
+  | cs :: more, chunks =>
+    match encodeString cs chunks with
+    | some enc => some (cs, enc)
+    | none => tryCharsets more chunks
 
 /-- `ResponseEncoder.__call__` after the inner handler returned `body` -/
 def encodeStage (rq : Req) (r : Resp) (body : Body) : Out :=
@@ -537,10 +542,11 @@ def encodeStage (rq : Req) (r : Resp) (body : Body) : Out :=
                     hdrs := r.hdrs.set .contentType (.ctype base (some cs)) }, none)
       else
         let r := { r with hdrs := r.hdrs.del .contentLength }
-        match tryCharsets rq.charsets body with
-        | none => (r, some .exc)
-        | some none => (r, some (.httpError (if rq.dfltOnly then 500 else 406)))
-        | some (some (cs, enc)) =>
+        -- list(self.body): a raising producer propagates
+        if hasRaise body.chunks then (r, some .exc) else
+        match tryCharsets rq.charsets body.chunks with
+        | none => (r, some (.httpError (if rq.dfltOnly then 500 else 406)))
+        | some (cs, enc) =>
           ({ r with body := ⟨.list, enc⟩, hdrs := r.hdrs.set .contentType (.ctype base (some cs)) }, none)
     else
       if setterRejects body then (r, some .exc) else ({ r with body := body }, none)
@@ -548,15 +554,14 @@ def encodeStage (rq : Req) (r : Resp) (body : Body) : Out :=
 
 /-- `_serve_fileobj` for a file with content `b` -/
 def serveFile (pg : Pages) (rq : Req) (b : Bytes) (r : Resp) : Out :=
-  let r := { r with hdrs := (r.hdrs.set .lastModified .opaque).set .acceptRanges .opaque }
+  let r := { r with hdrs := (r.hdrs.set .lastModified .other).set .acceptRanges .other }
   match rq.ranges with
-  | some [] => ({ r with hdrs := r.hdrs.set .contentRange .opaque }, some (.httpError 416))
+  | some [] => ({ r with hdrs := r.hdrs.set .contentRange .other }, some (.httpError 416))
   | some [(start, stop)] =>
-    let stop := if stop > b.length then b.length else stop
-    let part := (b.drop start).take (stop - start)
+    -- `if stop > content_length: stop = content_length`; file_generator_limited(fileobj, r_len)
     ({ r with status := some 206,
-              hdrs := (r.hdrs.set .contentRange .opaque).set .contentLength (.nat (stop - start)),
-              body := ⟨.iter, if part.isEmpty then [] else [.bytes part]⟩ }, none)
+              hdrs := (r.hdrs.set .contentRange .other).set .contentLength (.nat (min stop b.length - start)),
+              body := ⟨.iter, oneChunk ((b.drop start).take (min stop b.length - start))⟩ }, none)
   | some rs =>
     let parts := rs.flatMap fun (a, z) =>
       [Chunk.bytes (pg.partHead a z), .bytes ((b.drop a).take (z - a)), .bytes [13, 10]]
@@ -564,47 +569,51 @@ def serveFile (pg : Pages) (rq : Req) (b : Bytes) (r : Resp) : Out :=
               hdrs := (r.hdrs.set .contentType (.ctype .multipart none)).del .contentLength,
               body := ⟨.iter, .bytes [13, 10] :: parts ++ [.bytes pg.partTail]⟩, src := .multipart }, none)
   | none =>
-    ({ r with hdrs := r.hdrs.set .contentLength (.nat b.length),
-              body := ⟨.iter, if b.isEmpty then [] else [.bytes b]⟩ }, none)
-
-def shapeBytes : Shape → Bytes
-  | .bytesV b => b
-  | .listV cs => concat cs
-  | .genV cs => concat cs
-  | .fileV b => b
-  | .staticV b => b
-  | _ => []
+    ({ r with hdrs := r.hdrs.set .contentLength (.nat b.length), body := ⟨.iter, oneChunk b⟩ }, none)
 
 /-- `isinstance(value, str)`: ResponseBody.__set__ rejects it even when empty -/
 def shapeIsStr : Shape → Bool
   | .strV _ => true
   | _ => false
 
-/-- the page handler (through the encode wrapper when tools.encode is on) -/
+/-- assigning the handler's value to `response.body` (through the encode wrapper when tools.encode is on) -/
+def assignBody (rq : Req) (p : Plan) (isStr : Bool) (r : Resp) (body : Body) : Out :=
+  if p.t.encode then encodeStage rq r body
+  else if setterRejects body || isStr then (r, some .exc) else ({ r with body := body }, none)
+
+/-- `response.status = code` when the handler sets one -/
+def withStatus (st : HStatus) (r : Resp) : Resp :=
+  match st with
+  | .set c => { r with status := some c }
+  | _ => r
+
+/-- a handler that returns `serve_file(path)` -/
+def handlerStatic (pg : Pages) (rq : Req) (p : Plan) (b : Bytes) (r : Resp) : Out :=
+  match serveFile pg rq b (withStatus p.h.st r) with
+  | (r, some e) => (r, some e)
+  | (r, none) =>
+    -- the value returned is response.body itself (already prepared)
+    if p.t.encode then encodeStage rq r r.body else (r, none)
+
+/-- any other handler: own Content-Length, status / raise, then the returned value -/
+def handlerPlain (rq : Req) (p : Plan) (shape : Shape) (r : Resp) : Out :=
+  let r := match p.h.setCL with
+           | some n => { r with hdrs := r.hdrs.set .contentLength (.nat n) }
+           | none => r
+  match p.h.st with
+  | .raiseError c => (r, some (.httpError c))
+  | .raiseRedirect c => (r, some (.redirect c))
+  | .raiseExc => (r, some .exc)
+  | .set c => assignBody rq p (shapeIsStr shape) { r with status := some c } (prepareIter shape)
+  | .unset => assignBody rq p (shapeIsStr shape) r (prepareIter shape)
+
+/-- the page handler -/
 def handlerStage (pg : Pages) (rq : Req) (p : Plan) (r : Resp) : Out :=
-  let h := p.h
-  let r := { r with hdrs := r.hdrs.set .contentType (.ctype h.ct none),
-                    stream := r.stream || h.setStream, src := .handler }
-  match h.shape with
-  | .staticV b =>
-    let r := match h.st with | .set c => { r with status := some c } | _ => r
-    match serveFile pg rq b r with
-    | (r, some e) => (r, some e)
-    | (r, none) =>
-      -- the value returned is response.body itself (already prepared)
-      if p.t.encode then encodeStage rq r r.body else (r, none)
-  | shape =>
-    let r := if h.setCL then { r with hdrs := r.hdrs.set .contentLength (.nat (shapeBytes shape).length) }
-             else r
-    match h.st with
-    | .raiseError c => (r, some (.httpError c))
-    | .raiseRedirect c => (r, some (.redirect c))
-    | .raiseExc => (r, some .exc)
-    | st =>
-      let r := match st with | .set c => { r with status := some c } | _ => r
-      let body := prepareIter shape
-      if p.t.encode then encodeStage rq r body
-      else if setterRejects body || shapeIsStr shape then (r, some .exc) else ({ r with body := body }, none)
+  let r := { r with hdrs := r.hdrs.set .contentType (.ctype p.h.ct none),
+                    stream := r.stream || p.h.setStream, src := .handler }
+  match p.h.shape with
+  | .staticV b => handlerStatic pg rq p b r
+  | shape => handlerPlain rq p shape r
 
 /-! ### caching.get, the request pipeline -/
 
@@ -627,7 +636,7 @@ def beforeAndHandler (pg : Pages) (rq : Req) (p : Plan) (cache : Option Cache) :
     else
       match cache.bind (·.find rq) with
       | some ent =>
-        let r := { r with hdrs := ent.hdrs.set .age .opaque, status := some ent.status,
+        let r := { r with hdrs := ent.hdrs.set .age .other, status := some ent.status,
                           body := bytesBody ent.body, src := ent.src, gz := ent.gz }
         (⟨r, cache⟩, none, true, false)
       | none =>
@@ -664,27 +673,36 @@ def bareResp (pg : Pages) (r : Resp) : Resp :=
                             else if k = .contentLength then some (.nat pg.bare.length) else none,
            body := ⟨.list, [.bytes pg.bare]⟩, tee := false, src := .bare, gz := false }
 
+/-- `_do_respond`: before_handler hooks, handler, before_finalize hooks, finalize.
+    Returns the outcome, whether the cache was hit, and the before_finalize hook list of this request. -/
+def firstPass (pg : Pages) (rq : Req) (p : Plan) (cache : Option Cache) :
+    (St × Option Exn) × Bool × List Step :=
+  let (s, e, cached, teeOn) := beforeAndHandler pg rq p cache
+  let hooks := hooksOf p.t teeOn
+  match e with
+  | some e => ((s, some e), cached, hooks)
+  | none => (hooksAndFinalize pg rq cached hooks s, cached, hooks)
+
+/-- the `except` clauses of `respond`: HTTPError / HTTPRedirect -> set_response, the before_finalize
+    hooks again, finalize; anything else (also from inside that clause) -> handle_error.
+    `none` = an exception escaped to `run`. -/
+def recover (pg : Pages) (rq : Req) (cached : Bool) (hooks : List Step) (first : St × Option Exn) : Option St :=
+  match first with
+  | (s, none) => some s
+  | (s, some .exc) => handleError pg rq s
+  | (s, some e) =>
+    match setResponse pg e s.r with
+    | (r, some _) => handleError pg rq { s with r := r }
+    | (r, none) =>
+      match hooksAndFinalize pg rq cached hooks { s with r := r } with
+      | (s, none) => some s
+      | (s, some _) => handleError pg rq s
+
 /-- `Request.respond` (+ the last-resort branch of `run`): the finalized response, before the HEAD
     removal -/
 def respond (pg : Pages) (rq : Req) (p : Plan) (cache : Option Cache) : St × Bool :=
-  let (s, e, cached, teeOn) := beforeAndHandler pg rq p cache
-  let hooks := hooksOf p.t teeOn
-  let first : St × Option Exn :=
-    match e with
-    | some e => (s, some e)
-    | none => hooksAndFinalize pg rq cached hooks s
-  let fin : Option St :=
-    match first with
-    | (s, none) => some s
-    | (s, some .exc) => handleError pg rq s
-    | (s, some e) =>
-      match setResponse pg e s.r with
-      | (r, some _) => handleError pg rq { s with r := r }
-      | (r, none) =>
-        match hooksAndFinalize pg rq cached hooks { s with r := r } with
-        | (s, none) => some s
-        | (s, some _) => handleError pg rq s
-  match fin with
+  let (first, cached, hooks) := firstPass pg rq p cache
+  match recover pg rq cached hooks first with
   | some s => (s, cached)
   | none => (⟨bareResp pg first.1.r, first.1.cache⟩, cached)
 
